@@ -16,6 +16,7 @@ from ufl.algorithms.apply_derivatives import apply_coordinate_derivatives, apply
 from ufl.algorithms.apply_function_pullbacks import apply_function_pullbacks
 from ufl.algorithms.apply_geometry_lowering import apply_geometry_lowering
 from ufl.algorithms.apply_integral_scaling import apply_integral_scaling
+from ufl import _verif
 from ufl.algorithms.cancel_jacobian_products import cancel_jacobian_products
 from ufl.algorithms.comparison_checker import do_comparison_check
 
@@ -62,23 +63,31 @@ def preprocess_form(form, complex_mode):
     # with Real, otherwise throw an error.
     if complex_mode:
         form = do_comparison_check(form)
+        if _verif.enabled:
+            _verif.emit("comparison_check", form)
 
     # Lower abstractions for tensor-algebra types into index notation,
     # reducing the number of operators later algorithms and form
     # compilers need to handle
     form = apply_algebra_lowering(form)
+    if _verif.enabled:
+        _verif.emit("algebra_lowering", form)
 
     # After lowering to index notation, remove any complex nodes that
     # have been introduced but are not wanted when working in real mode,
     # allowing for purely real forms to be written
     if not complex_mode:
         form = remove_complex_nodes(form)
+        if _verif.enabled:
+            _verif.emit("remove_complex_nodes#1", form)
 
     # Apply differentiation before function pullbacks, because for
     # example coefficient derivatives are more complicated to derive
     # after coefficients are rewritten, and in particular for
     # user-defined coefficient relations it just gets too messy
     form = apply_derivatives(form)
+    if _verif.enabled:
+        _verif.emit("apply_derivatives#1", form)
 
     return form
 
@@ -138,6 +147,26 @@ def compute_form_data(
     # the same as the ones used in the final UFC form.
     # See 'reduced_coefficients' below.
     original_form = form
+    if _verif.enabled:
+        _verif.emit(
+            "entry",
+            form,
+            options={
+                "do_apply_function_pullbacks": do_apply_function_pullbacks,
+                "do_apply_integral_scaling": do_apply_integral_scaling,
+                "do_apply_geometry_lowering": do_apply_geometry_lowering,
+                "preserve_geometry_types": tuple(t.__name__ for t in preserve_geometry_types),
+                "do_cancel_jacobian_products": do_cancel_jacobian_products,
+                "do_apply_default_restrictions": do_apply_default_restrictions,
+                "do_apply_restrictions": do_apply_restrictions,
+                "do_estimate_degrees": do_estimate_degrees,
+                "do_append_everywhere_integrals": do_append_everywhere_integrals,
+                "do_replace_functions": do_replace_functions,
+                "coefficients_to_split": coefficients_to_split is not None,
+                "complex_mode": complex_mode,
+                "do_remove_component_tensors": do_remove_component_tensors,
+            },
+        )
 
     # --- Pass form integrands through some symbolic manipulation
 
@@ -152,12 +181,16 @@ def compute_form_data(
         original_form.ufl_domains(),
         do_append_everywhere_integrals=do_append_everywhere_integrals,
     )
+    if _verif.enabled:
+        _verif.emit("group_form_integrals", form)
 
     # Estimate polynomial degree of integrands now, before applying
     # any pullbacks and geometric lowering.  Otherwise quad degrees
     # blow up horrifically.
     if do_estimate_degrees:
         form = attach_estimated_degrees(form)
+        if _verif.enabled:
+            _verif.emit("attach_estimated_degrees", form)
 
     if do_apply_function_pullbacks:
         # Rewrite coefficients and arguments in terms of their
@@ -167,10 +200,14 @@ def compute_form_data(
         #           Domain.  Current dolfin works if Expression has a
         #           cell but this should be changed to a mesh.
         form = apply_function_pullbacks(form)
+        if _verif.enabled:
+            _verif.emit("function_pullbacks", form)
 
     # Scale integrals to reference cell frames
     if do_apply_integral_scaling:
         form = apply_integral_scaling(form)
+        if _verif.enabled:
+            _verif.emit("integral_scaling", form)
 
     # Keep the Jacobian, its inverse, and its determinant as opaque
     # terminals while derivatives are expanded, so that contractions
@@ -191,39 +228,63 @@ def compute_form_data(
     # expressions w.r.t. loop-invariant code motion etc.
     if do_apply_geometry_lowering:
         form = apply_geometry_lowering(form, lowering_preserve_types)
+        if _verif.enabled:
+            _verif.emit("geometry_lowering#1", form)
 
     # Apply differentiation again, because the algorithms above can
     # generate new derivatives or rewrite expressions inside
     # derivatives
     if do_apply_function_pullbacks or do_apply_geometry_lowering:
         form = apply_derivatives(form)
+        if _verif.enabled:
+            _verif.emit("apply_derivatives#2", form)
 
         # Neverending story: apply_derivatives introduces new Jinvs,
         # which needs more geometry lowering
         if do_apply_geometry_lowering:
             form = apply_geometry_lowering(form, lowering_preserve_types)
+            if _verif.enabled:
+                _verif.emit("geometry_lowering#2", form)
             # Lower derivatives that may have appeared
             form = apply_derivatives(form)
+            if _verif.enabled:
+                _verif.emit("apply_derivatives#3", form)
 
             if do_cancel_jacobian_products:
                 # Cancel contractions of the Jacobian with its inverse,
                 # which requires component tensors to be removed first
                 form = remove_component_tensors(form)
+                if _verif.enabled:
+                    _verif.emit("remove_component_tensors#cj", form)
                 form = cancel_jacobian_products(form)
+                if _verif.enabled:
+                    _verif.emit("cancel_jacobian_products", form)
                 # Lower the Jacobian quantities that were preserved above
                 form = apply_geometry_lowering(form, preserve_geometry_types)
+                if _verif.enabled:
+                    _verif.emit("geometry_lowering#3", form)
                 form = apply_derivatives(form)
+                if _verif.enabled:
+                    _verif.emit("apply_derivatives#4", form)
 
     form = apply_coordinate_derivatives(form)
+    if _verif.enabled:
+        _verif.emit("coordinate_derivatives", form)
 
     # If in real mode, remove any complex nodes introduced during form processing.
     if not complex_mode:
         form = remove_complex_nodes(form)
+        if _verif.enabled:
+            _verif.emit("remove_complex_nodes#2", form)
 
     # Remove component tensors
     if do_remove_component_tensors:
         form = remove_component_tensors(form)
+        if _verif.enabled:
+            _verif.emit("remove_component_tensors", form)
     integral_data = build_integral_data(form.integrals())
+    if _verif.enabled:
+        _verif.emit("build_integral_data", integral_data)
     return FormData(
         original_form,
         integral_data,
